@@ -18,6 +18,15 @@ US = timedelta(microseconds=1)
 SEC = 1_000_000
 
 
+TMAX = (datetime.max - BASE) // US   # datetime.max on the harness' time axis (= Cfg.tMax in lean/Upnp/Spec/C03Cfg.lean)
+TMIN = (datetime.min - BASE) // US
+assert TMAX == 251824463999999999, "the epoch of the harness and Cfg.tMax must agree"
+
+
+def clamp(ts: int) -> int:
+    return max(TMIN, min(TMAX, ts))
+
+
 def to_us(dt: datetime) -> int:
     return (dt - BASE) // US
 
@@ -261,12 +270,21 @@ GOOD_LOCS = [
     ("https://tv.example:443/d", ADDR4),             # no ip version
     ("http://127.0.0.2:80/desc.xml", ADDR4),         # accepted by the code (DESIGN §7 out-of-domain note)
     ("http://[2001:db8::11]/x", ADDR6),
+    ("http://[2001:db8:0:1:2:3:4:5]:8080/full", ADDR6),   # full form
+    ("http://[1:2:3:4:5:6:7::]/t", ADDR6),                # trailing ::
+    ("http://[::2:3]/l", ADDR6),                          # leading ::
+    ("http://[1::2:3:4:5:6:7:8]/bad", ADDR6),             # 8 hextets with :: -> ip_address refuses -> no ip version
 ]
 BAD_LOCS = ["http://127.0.0.1:80/d", "http://[::1]:80/d", "http://169.254.7.7/d", "ftp://192.168.1.10/d", "", "xhttp://192.168.1.10/",
             "HTTP://192.168.1.10/"]
 CACHE = [None, "max-age=1", "max-age=5", "max-age=1800", "max-age = 5", "MAX-AGE=7", "no-cache", "max-age=0",
          "public, max-age=30", "max-age=", "xmax-age=4, max-age=9", "max-age=007", "max-age=12abc", "Max-Age \t= \t3, x",
          "no-store, MAX-AGE=2;q", "m=1, ma=2, max-age-x=3"]
+# saturation (C02's fixes): 10 digits (representable), 12 digits (valid_to beyond datetime.max), the timedelta boundary,
+# 20 digits (timedelta refuses), 4301 digit characters (int() refuses; with and without leading zeros), 4300 (accepted)
+HUGE = ["max-age=9999999999", "max-age=999999999999", "max-age=86399999999999", "max-age=86400000000000",
+        "max-age=" + "7" * 20, "max-age=" + "1" * 4301, "max-age=" + "0" * 4300 + "5", "max-age=" + "0" * 4299 + "5",
+        "max-age=251824463999", "max-age=251824464000"]
 GAPS_S = [0, 0, 1, 1, 4, 6, 2000, -1, 899, 900, 901, 5, 7, 30, 1799, 1801, -5]
 EXTRA = [
     [], [["BOOTID.UPNP.ORG", "1"]], [["BOOTID.UPNP.ORG", "2"]], [["Bootid.upnp.org", "1"]], [["bootid.upnp.org", "2"]],
@@ -321,6 +339,8 @@ def rand_valid(rng, ts, udns=UDNS, types=TYPES):
     ty = rng.choice(types)
     loc, addr = rng.choice(GOOD_LOCS[:4]) if rng.random() < 0.8 else rng.choice(GOOD_LOCS)
     cache = rng.choice(CACHE[:4]) if rng.random() < 0.7 else rng.choice(CACHE)
+    if rng.random() < 0.04:
+        cache = rng.choice(HUGE)
     extra = rng.choice(EXTRA[:7]) if rng.random() < 0.7 else rng.choice(EXTRA)
     c = rng.randrange(10)
     if c < 4:
@@ -375,14 +395,24 @@ def rand_invalid(rng, ts):
     return mk_notify(ts, "ssdp:byebye", None, ty, None, addr, None, [["_udn", udn]])  # byebye without uuid USN
 
 
+def start_time(rng) -> int:
+    """mostly around the epoch; sometimes within seconds of datetime.max / datetime.min"""
+    r = rng.random()
+    if r < 0.06:
+        return TMAX - rng.choice([0, 1, 3 * SEC, 10 * SEC, 2000 * SEC])
+    if r < 0.09:
+        return TMIN + rng.choice([0, 1, 3 * SEC, 2000 * SEC])
+    return rng.randrange(0, 5) * SEC
+
+
 def rand_history(rng, n: int, p_invalid=0.15, p_purge=0.12, udns=UDNS, types=TYPES) -> List[Any]:
-    ts = rng.randrange(0, 5) * SEC
+    ts = start_time(rng)
     ops = []
     for _ in range(n):
         gap = rng.choice(GAPS_S) * SEC
         if rng.random() < 0.15:
             gap += rng.choice([1, -1, 500_000])
-        ts += gap
+        ts = clamp(ts + gap)
         r = rng.random()
         if r < p_purge:
             ops.append(["purge", ts])
@@ -458,6 +488,30 @@ CORPUS: List[Dict[str, Any]] = [
              mk_search(2 * SEC, UDNS[1], TYPES[0], *GOOD_LOCS[1], "max-age=1", []),
              mk_search(10 * SEC, UDNS[0], TYPES[0], *GOOD_LOCS[0], "max-age=1800", []),
              mk_search(11 * SEC, UDNS[0], TYPES[0], *GOOD_LOCS[0], "max-age=1800", [])]},
+]
+
+
+CORPUS += [
+    # saturation: 12 digits -> valid_to = datetime.max; 20 digits / 4301 digit characters -> timedelta.max -> datetime.max;
+    # a saturated device survives a purge at datetime.max and is refreshed down by a later small max-age
+    {"ops": [mk_search(0, UDNS[0], TYPES[0], *GOOD_LOCS[0], "max-age=999999999999", []),
+             mk_search(1 * SEC, UDNS[1], TYPES[0], *GOOD_LOCS[1], "max-age=" + "7" * 20, []),
+             mk_notify(2 * SEC, "ssdp:alive", UDNS[2], TYPES[0], *GOOD_LOCS[2], "max-age=" + "0" * 4300 + "5", []),
+             mk_notify(2 * SEC, "ssdp:alive", UDNS[3], TYPES[0], *GOOD_LOCS[1], "max-age=" + "0" * 4299 + "5", []),
+             ["purge", TMAX], mk_search(TMAX, UDNS[0], TYPES[0], *GOOD_LOCS[0], "max-age=5", []), ["purge", TMAX],
+             mk_search(5 * SEC, UDNS[0], TYPES[0], *GOOD_LOCS[0], "max-age=1", []), ["purge", 7 * SEC]]},
+    # the timedelta boundary and the datetime boundary
+    {"ops": [mk_search(0, UDNS[0], TYPES[0], *GOOD_LOCS[0], "max-age=86399999999999", []),
+             mk_search(0, UDNS[1], TYPES[0], *GOOD_LOCS[1], "max-age=86400000000000", []),
+             mk_search(0, UDNS[2], TYPES[0], *GOOD_LOCS[2], "max-age=251824463999", []),
+             mk_search(1, UDNS[3], TYPES[0], *GOOD_LOCS[1], "max-age=251824463999", []),
+             ["purge", TMAX - 1], ["purge", TMAX]]},
+    # timestamps at datetime.min, equal and backwards
+    {"ops": [mk_search(TMIN, UDNS[0], TYPES[0], *GOOD_LOCS[0], "max-age=5", []),
+             mk_search(TMIN, UDNS[1], TYPES[0], *GOOD_LOCS[1], None, []),
+             mk_notify(TMIN + 6 * SEC, "ssdp:alive", UDNS[1], TYPES[0], *GOOD_LOCS[1], "max-age=1", []),
+             mk_notify(TMIN + 2 * SEC, "ssdp:alive", UDNS[0], TYPES[0], *GOOD_LOCS[0], "max-age=1", []),
+             ["purge", TMIN + 4 * SEC]]},
 ]
 
 
